@@ -10,7 +10,7 @@ import uni_common as U
 import c04_uni as G
 
 PROPERTY = "C03"
-LEAN_MODULES = ["Proofs.C03.Uni", "Proofs.C03.UniValue", "Proofs.C03.UniKernel", "Proofs.C03.UniKeys"]
+LEAN_MODULES = ["Proofs.C03.Uni", "Proofs.C03.UniValue", "Proofs.C03.UniKernel", "Proofs.C03.UniKeys", "Proofs.C03.UniSeq"]
 DRIVERS = ["driver"]
 RULE = ("[uni] sequences of 1–12 operations on one frozen status row (all public operations; amounts log-uniform 1e-9…1e12, zero, exact balance, "
         "balance*(1±1e-6), oversized x10, negative; liquidity to remove: none / part / all / more than held / zero; collect caps below / at / above "
@@ -67,7 +67,7 @@ def gen_op(rng, w, chosen_price_stream):
     keys = list(m.positions.keys())
     r = rng.random()
     if r < 0.3 or not keys:
-        lo, up = G.rand_range(rng, w)
+        lo, up = G.raw_range(rng, w)
         (b, cb), (q, cq) = amount_class(rng, bb), amount_class(rng, qb)
         op = {"op": "add_by_tick", "lower": lo, "upper": up, "base": b, "quote": q, "sqrt": None, "tick": None, "trim": True}
         cls = f"{cb}/{cq}"
@@ -106,7 +106,7 @@ def gen_op(rng, w, chosen_price_stream):
     if r < 0.92:
         return {"op": "even_rebalance", "price": None}, "-"
     if r < 0.97:
-        lo, up = G.rand_range(rng, w)
+        lo, up = G.raw_range(rng, w)
         v, cls = amount_class(rng, qb + bb * w.price)
         return {"op": "add_by_value", "lower": lo, "upper": up, "value": v, "trim": True}, cls
     return {"op": "remove_all"}, "-"
@@ -222,10 +222,13 @@ def run(ctx: Ctx):
                 ctx.disagree(f"[uni] step {tag} ({err or 'ok'}): state differs at {d}", rep)
             elif err is None and res is not None and U.diff_json(res, o["result"]):
                 ctx.disagree(f"[uni] step {tag}: result differs at {U.diff_json(res, o['result'])}", rep)
+    U.report_process_state(ctx)
 
 
 def replay(ctx: Ctx, case) -> bool:
     import random
+    if isinstance(case, dict) and case.get("kind") == "process-state":
+        return U.replay_process_state(case)
     sub = Ctx(ctx.prop, ctx.tier, ctx.seed, False)
     U.cap_violations(sub)
     rng = random.Random(1)
